@@ -57,7 +57,7 @@ macro_rules! parts {
                 Tier::Thorough => cfgs(&[(1, 1), (1, 2), (2, 1), (2, 2), (3, 2), (2, 3), (3, 3), (4, 2), (4, 3)], &[None]),
             },
             alphabet: &alpha,
-            depth: tier.pick(4, 5),
+            depth: tier.pick(4, 6),
             seconds: tier.pick(25.0, 2400.0),
             validated: true,
             nontrivial: Some("lockstep_transitions"),
@@ -70,7 +70,7 @@ macro_rules! parts {
                 Tier::Thorough => cfgs(&[(2, 2), (3, 2), (3, 3), (4, 2)], &[None]),
             },
             alphabet: &alpha,
-            depth: tier.pick(4, 5),
+            depth: tier.pick(4, 6),
             seconds: tier.pick(15.0, 1200.0),
             validated: true,
             nontrivial: Some("lockstep_transitions"),
